@@ -514,7 +514,7 @@ def run_ctx(cid: str, evs: List[str], info: Optional[Dict[str, Any]] = None) -> 
             try:
                 view[key] = val
                 ok = False
-            except (ValueError, TypeError, OverflowError):
+            except Exception:  # noqa: BLE001  refused, whatever the class of the exception
                 ok = bytes(keeper) == before
             if not ok:      # undo whatever was stored so that later probes start clean
                 import ctypes as _ct
@@ -527,7 +527,7 @@ def run_ctx(cid: str, evs: List[str], info: Optional[Dict[str, Any]] = None) -> 
         try:
             m.i8 = 1000
             refused = False
-        except ValueError:
+        except Exception:  # noqa: BLE001  refused, whatever the class of the exception
             refused = True
         var = bool(_flag_get(V))
         # "validation is in force whenever execution is not inside a disable block": also for array views that were
